@@ -240,3 +240,196 @@ func TestB2C13CMaps(t *testing.T) {
 	}
 	t.Logf("B2-CASES %d", cases)
 }
+
+// TestB2C13Chains: parent (usecmap) chains of depth 1..5, with named and unnamed ancestors,
+// for CID CMaps and ToUnicode CMaps; every level defines some codes of its own and overrides
+// some of its parent's.  Lookups and enumeration must see the whole chain, before and after
+// Embed/Extract.  Also notdef ranges wider than 2^31 codes.
+func TestB2C13Chains(t *testing.T) {
+	cases := 0
+	ros := &cid.SystemInfo{Registry: "Test", Ordering: "Harness", Supplement: 0}
+	csr := charcode.UCS2
+	codec, _ := charcode.NewCodec(csr)
+	codeOf := func(hi, lo byte) ([]byte, charcode.Code) {
+		b := []byte{hi, lo}
+		c, _, _ := codec.Decode(b)
+		return b, c
+	}
+	for depth := 1; depth <= 5; depth++ {
+		for _, named := range []bool{true, false} {
+			cases++
+			desc := fmt.Sprintf("depth=%d named=%v", depth, named)
+			// level l (0 = oldest ancestor) defines codes <l0 00..0b> and overrides <00 00..03>
+			want := map[charcode.Code]cid.CID{}
+			wantText := map[charcode.Code]string{}
+			var chain *File
+			var tchain *ToUnicodeFile
+			for l := 0; l < depth; l++ {
+				data := map[charcode.Code]cid.CID{}
+				text := map[charcode.Code]string{}
+				for k := 0; k < 12; k++ {
+					_, c := codeOf(byte(0x10*(l+1)), byte(k))
+					data[c] = cid.CID(1000*l + k + 1)
+					text[c] = string(rune(0x4e00 + 100*l + k))
+				}
+				for k := 0; k < 4; k++ {
+					_, c := codeOf(0, byte(k))
+					data[c] = cid.CID(7000 + 10*l + k)
+					text[c] = string([]rune{rune(0x1f600 + 16*l + k), 'x'})
+				}
+				for c, v := range data {
+					want[c] = v
+				}
+				for c, v := range text {
+					wantText[c] = v
+				}
+				f := &File{ROS: ros, Parent: chain}
+				if named || l == depth-1 {
+					f.Name = fmt.Sprintf("HarnessLevel%d", l)
+				}
+				f.SetMapping(codec, data)
+				chain = f
+				tu, err := NewToUnicodeFile(csr, text)
+				if err != nil {
+					t.Fatalf("harness: %v", err)
+				}
+				tu.Parent = tchain
+				tchain = tu
+			}
+			check := func(g *File, what string) {
+				n := 0
+				for p := g; p != nil; p = p.Parent {
+					n++
+				}
+				if n != depth {
+					t.Errorf("B2-FAIL %s-chain-depth %s: %d levels", what, desc, n)
+				}
+				for c, v := range want {
+					code := codec.AppendCode(nil, c)
+					if got := g.LookupCID(code); got != v {
+						t.Errorf("B2-FAIL %s-chain-lookup %s code=%x: got %d want %d", what, desc, code, got, v)
+						return
+					}
+				}
+				seen := map[charcode.Code]cid.CID{}
+				for c, v := range g.All(codec) {
+					seen[c] = v
+				}
+				if len(seen) != len(want) {
+					t.Errorf("B2-FAIL %s-chain-enumeration %s: %d entries, want %d", what, desc, len(seen), len(want))
+					return
+				}
+				for c, v := range want {
+					if seen[c] != v {
+						t.Errorf("B2-FAIL %s-chain-enumeration %s code=%x: %d want %d", what, desc, c, seen[c], v)
+						return
+					}
+				}
+			}
+			check(chain, "built")
+			for _, ver := range []pdf.Version{pdf.V1_7, pdf.V2_0} {
+				w, _ := memfile.NewPDFWriter(ver, nil)
+				rm := pdf.NewResourceManager(w)
+				ref, err := rm.Embed(chain)
+				if err != nil {
+					t.Errorf("B2-FAIL chain-embed %s: %v", desc, err)
+					continue
+				}
+				rm.Close()
+				g, err := Extract(pdf.NewCursor(w), ref, false)
+				if err != nil {
+					t.Errorf("B2-FAIL chain-extract %s: %v", desc, err)
+					continue
+				}
+				check(g, "extracted")
+			}
+			checkTU := func(h *ToUnicodeFile, what string) {
+				for c, v := range wantText {
+					code := codec.AppendCode(nil, c)
+					if got, ok := h.Lookup(code); !ok || got != v {
+						t.Errorf("B2-FAIL %s-tounicode-chain-lookup %s code=%x: got %q %v want %q", what, desc, code, got, ok, v)
+						return
+					}
+				}
+				seen := map[charcode.Code]string{}
+				for c, v := range h.All(codec) {
+					seen[c] = v
+				}
+				if len(seen) != len(wantText) {
+					t.Errorf("B2-FAIL %s-tounicode-chain-enumeration %s: %d entries, lookup answers %d codes", what, desc, len(seen), len(wantText))
+					return
+				}
+				for c, v := range wantText {
+					if seen[c] != v {
+						t.Errorf("B2-FAIL %s-tounicode-chain-enumeration %s code=%x: %q want %q", what, desc, c, seen[c], v)
+						return
+					}
+				}
+			}
+			if named {
+				checkTU(tchain, "built")
+				w, _ := memfile.NewPDFWriter(pdf.V2_0, nil)
+				rm := pdf.NewResourceManager(w)
+				ref, err := rm.Embed(tchain)
+				if err != nil {
+					t.Errorf("B2-FAIL tounicode-chain-embed %s: %v", desc, err)
+					continue
+				}
+				rm.Close()
+				h, err := pdf.Decode(pdf.NewCursor(w), ref, ExtractToUnicode)
+				if err != nil || h == nil {
+					t.Errorf("B2-FAIL tounicode-chain-extract %s: %v", desc, err)
+					continue
+				}
+				checkTU(h, "extracted")
+			}
+		}
+	}
+	// notdef ranges: also ranges with more than 2^31 codes
+	for _, nr := range []Range{
+		{First: []byte{0, 0, 0, 0}, Last: []byte{0xff, 0xff, 0xff, 0xff}, Value: 1},
+		{First: []byte{0x40, 0, 0, 0}, Last: []byte{0xc0, 0xff, 0xff, 0xff}, Value: 5},
+		{First: []byte{0, 0, 0, 0}, Last: []byte{0, 0, 0xff, 0xff}, Value: 9},
+	} {
+		cases++
+		csr4 := charcode.CodeSpaceRange{{Low: []byte{0, 0, 0, 0}, High: []byte{0xff, 0xff, 0xff, 0xff}}}
+		f := &File{Name: "HarnessNotdef", ROS: ros, CodeSpaceRange: csr4, NotdefRanges: []Range{nr},
+			CIDRanges: []Range{{First: []byte{0x50, 0, 0, 0x10}, Last: []byte{0x50, 0, 0, 0x20}, Value: 100}}}
+		probe := func(g *File, what string) {
+			for _, code := range [][]byte{{0, 0, 0, 0}, {0x40, 0, 0, 0}, {0x7f, 0xff, 0xff, 0xff}, {0x80, 0, 0, 0}, {0xc0, 0xff, 0xff, 0xff}, {0xc1, 0, 0, 0}, {0xff, 0xff, 0xff, 0xff}, {0, 0, 0xff, 0xff}, {0, 1, 0, 0}, {0x50, 0, 0, 0x18}} {
+				want := cid.CID(0)
+				in := true
+				for i := range code {
+					if code[i] < nr.First[i] || code[i] > nr.Last[i] {
+						in = false
+					}
+				}
+				if in {
+					want = nr.Value
+				}
+				if code[0] == 0x50 && code[3] == 0x18 {
+					want = 108
+				}
+				if got := g.LookupCID(code); got != want {
+					t.Errorf("B2-FAIL %s-notdef-lookup range=%v code=%x: got %d want %d", what, nr, code, got, want)
+				}
+			}
+		}
+		probe(f, "built")
+		w, _ := memfile.NewPDFWriter(pdf.V2_0, nil)
+		rm := pdf.NewResourceManager(w)
+		ref, err := rm.Embed(f)
+		if err != nil {
+			t.Errorf("B2-FAIL notdef-embed %v: %v", nr, err)
+			continue
+		}
+		rm.Close()
+		g, err := Extract(pdf.NewCursor(w), ref, false)
+		if err != nil {
+			t.Errorf("B2-FAIL notdef-extract %v: %v", nr, err)
+			continue
+		}
+		probe(g, "extracted")
+	}
+	t.Logf("B2-CASES %d", cases)
+}
